@@ -4,6 +4,8 @@
 mod refers;
 mod helpers;
 mod inventory;
+mod datatype;
+mod hashiter;
 
 #[macro_export]
 macro_rules! shape_changed {
@@ -37,6 +39,8 @@ fn main() {
         "GenRefers" => refers::generate(&a[2], &a[3]),
         "GenHelpers" => helpers::generate(&a[2], &a[3]),
         "GenInventory" => inventory::generate(&a[2], &a[3]),
+        "GenDataTypeConv" => datatype::generate(&a[2], &a[3]),
+        "GenHashIter" => hashiter::generate(&a[2], &a[3]),
         other => { eprintln!("unknown generator {other}"); std::process::exit(2) }
     }
 }
